@@ -204,6 +204,9 @@ fn t_finish_established() {
     let credit: u32 = kani::any();
     let (mut sa, da) = w.task.new_stream_shared(A, credit, Bytes::new(), 0);
     da.sender.as_ref().unwrap().try_send(Bytes::from_static(b"xy")).ok();
+    // whether or not this end has already shut down its own direction
+    let fin: bool = kani::any();
+    sa.finish_sent.store(fin, Ordering::Relaxed);
     w.task.flows.write().insert(A, FlowSlot::Established(da));
     let r = poll_once(w.task.process_frame(Frame::new_finish(A), false));
     assert!(matches!(r, Poll::Ready(Ok(()))), "C05.finish.ok");
@@ -213,10 +216,10 @@ fn t_finish_established() {
         let g = w.task.flows.read();
         match g.get(&A) {
             Some(FlowSlot::Established(d)) => assert!(d.sender.is_none(), "C05.finish.read_closed: the inbound queue is closed"),
-            _ => assert!(false, "C05.finish.slot_stays: the flow stays open for writing"),
+            _ => assert!(false, "C05+C06.finish.slot_stays: the slot stays until the application lets go of the stream, also when both directions are finished (removing it earlier lets the id be re-used while the old handle is alive)"),
         }
     }
-    assert!(!sa.finish_sent.load(Ordering::Relaxed) && sa.psh_send_remaining.load(Ordering::Relaxed) == credit,
+    assert!(sa.finish_sent.load(Ordering::Relaxed) == fin && sa.psh_send_remaining.load(Ordering::Relaxed) == credit,
         "C05.finish.halfclose: the write direction and the credit are untouched");
     let mut c = cx();
     assert!(matches!(sa.poll_for_push(&mut c), Poll::Ready(2)), "C05.eof.after_data: data queued before the Finish is still returned");
